@@ -48,9 +48,14 @@ func plans() map[string]Plan {
 		QuickCap: 300, ThoroughCap: 3000,
 		Assumptions: append([]string{"meaning(p) is computed by ref/asm.go from the abstract program (token-level EQU substitution, relative labels, ICWS'94 draft / ICWS'88 default tables, README lone-operand rule) without calling gmars"}, baseAssumptions...)}
 	p["C08"] = Plan{Prop: "C08",
-		Quick:       []Job{{Name: "for-structures", Engine: "e4"}},
-		Thorough:    []Job{{Name: "for-structures", Engine: "e4"}},
-		QuickCap:    300, ThoroughCap: 3000,
+		Quick:    []Job{{Name: "for-structures", Engine: "e4"}},
+		Thorough: []Job{{Name: "for-structures", Engine: "e4"}},
+		QuickCap: 300, ThoroughCap: 3000,
 		Assumptions: append([]string{"unroll(p) and its meaning are computed by the harness (engines/e4/c08.go, ref/asm.go) without calling gmars"}, baseAssumptions...)}
+	p["C06"] = Plan{Prop: "C06",
+		Quick:       []Job{{Name: "accepted-outputs", Engine: "e4"}},
+		Thorough:    []Job{{Name: "accepted-outputs", Engine: "e4"}},
+		QuickCap:    300, ThoroughCap: 3000,
+		Assumptions: append([]string{"the ICWS'88 legality table is ref.Legal88 (written from the standard; SLT with immediate B allowed as the suite documents)"}, baseAssumptions...)}
 	return p
 }
